@@ -856,3 +856,37 @@ func R12StartBeforeRegister(c *Ctx) {
 		c.R.Anchor(rule, "a function that calls an error-returning Start and appends to t.Listeners")
 	}
 }
+
+// R12ExistAllKinds — the name test that guards registrations sees listeners of every kind.
+func R12ExistAllKinds(c *Ctx) {
+	const rule = "R12-exist-all-kinds"
+	c.R.Rule(rule, "Teamserver.ListenerExist (with the helpers it calls) decides by the listeners' names alone: nothing it executes asserts the dynamic type of a listener's Config or compares its Type — an existence test built on a per-kind accessor answers false for the kinds that accessor does not know, and a second listener of that name is accepted", 1)
+	fn := c.P.Func(PkgServer, "Teamserver.ListenerExist")
+	if fn == nil {
+		c.R.Anchor(rule, "server.(*Teamserver).ListenerExist")
+		return
+	}
+	bad := ""
+	for _, f := range HelperClosure(fn, 2) {
+		for _, b := range f.Blocks {
+			for _, in := range b.Instrs {
+				switch x := in.(type) {
+				case *ssa.TypeAssert:
+					if DerivesFrom(x.X, IsFieldLoad(PkgServer+".Listener", "Config")) {
+						bad = c.pos(x.Pos())
+					}
+				case *ssa.BinOp:
+					if (x.Op == token.EQL || x.Op == token.NEQ) && (DerivesFromNarrowCalls(x.X, IsFieldLoad(PkgServer+".Listener", "Type")) || DerivesFromNarrowCalls(x.Y, IsFieldLoad(PkgServer+".Listener", "Type"))) {
+						bad = c.pos(x.Pos())
+					}
+				}
+			}
+		}
+	}
+	construct := "ListenerExist depends on names only"
+	if bad == "" {
+		c.R.Ok(rule, FuncShort(fn), construct, c.pos(fn.Pos()), "no kind-specific test on the way to the answer", true)
+	} else {
+		c.R.Bad(rule, FuncShort(fn), construct, bad, "the existence test goes through code that distinguishes listener kinds: a kind it does not handle is reported as absent and its name can be registered twice")
+	}
+}
